@@ -1,4 +1,5 @@
 \* transaction status (v10) as coded, every schedule
+\* measured (8 TLC workers shared over 3 runs): 3927055 distinct / 17056452 generated states, depth 30, 316.1s
 CONSTANTS NSubs = 1 NConn = 1 InitLen = 1 MaxLen = 3 MaxTag = 3 MaxReverts = 1 MaxL1 = 1 MaxPc = 1 MaxTx = 1 MaxGw = 2 MaxRecv = 0 MaxTicks = 2 MaxBack = 3 MaxGot = 6
   Ver = 10 Kinds <- KStatus StartAtL1 <- NoL1 NoLag = FALSE QuietSub = FALSE ReorgPrio = FALSE TeeStage = FALSE Window = FALSE FixL1None = FALSE FixL1Order = FALSE BlockIds <- BidsLatest
 INIT Init
